@@ -147,12 +147,22 @@ Proof.
   - exact H.
 Qed.
 
+Lemma thread_step_blocks t sc dc : t_csrc_blocks (th_scr (thread_step t sc dc)) = t_csrc_blocks (th_scr t).
+Proof.
+  unfold thread_step. destruct (th_pc t); try reflexivity.
+  - destruct (if sc then _ else _) as [res d']. destruct (on_dl _ _ _); reflexivity.
+  - destruct (if dc then _ else _) as [res d']. destruct (on_dl _ _ _); reflexivity.
+  - destruct (if sc then _ else _) as [res r']. destruct (on_read _ _); reflexivity.
+  - destruct (if dc then _ else _) as [res w']. destruct (on_write _ _ _ _); reflexivity.
+  - destruct (if sc then _ else _) as [res d']. destruct (on_dl _ _ _); reflexivity.
+  - destruct (if dc then _ else _) as [res d']. destruct (on_dl _ _ _); reflexivity.
+Qed.
+
 (* ------------------------------------------------------------------ *)
 (* the invariant of the relay *)
 
 Definition live (p : pc) : bool := negb (pc_is_close p || pc_is_done p).
 Definition cl_not (s : cl_state) : bool := match s with CNot => true | _ => false end.
-Definition cl_done (s : cl_state) : bool := match s with CDone => true | _ => false end.
 Definition b2n (b : bool) : nat := if b then 1 else 0.
 
 Record inv (g0 : Z) (c : cfg) : Prop := {
@@ -160,8 +170,10 @@ Record inv (g0 : Z) (c : cfg) : Prop := {
   i_clD : cl_not (clD c) = live (th_pc (down c));
   i_upB : pc_is_done (th_pc (up c)) = true -> closedB c = true;
   i_downA : pc_is_done (th_pc (down c)) = true -> closedA c = true;
-  i_cluA : cl_done (clU c) = true -> closedA c = true;
-  i_cldB : cl_done (clD c) = true -> closedB c = true;
+  i_cluA : cl_over (clU c) = true -> closedA c = true;
+  i_cldB : cl_over (clD c) = true -> closedB c = true;
+  i_blkU : clU c = CBlocked -> t_csrc_blocks (th_scr (up c)) = true;
+  i_blkD : clD c = CBlocked -> t_csrc_blocks (th_scr (down c)) = true;
   i_wg : wg c = (b2n (negb (pc_is_done (th_pc (up c)))) + b2n (negb (pc_is_done (th_pc (down c)))))%nat;
   i_gauge : gauge c = match main c with MWait => (g0 + 1)%Z | _ => g0 end;
   i_main : main c <> MWait -> wg c = O;
@@ -206,11 +218,13 @@ Proof.
       try (set (th' := thread_step (up c) (closedA c) (closedB c));
            assert (Hnd : th_pc th' <> PDone) by (apply thread_step_pc; rewrite Epc; discriminate);
            assert (Hd : pc_is_done (th_pc th') = false) by (destruct (th_pc th'); try reflexivity; congruence);
-           constructor; cbn [clU clD up down closedA closedB wg gauge main th_pc th_acc]; auto;
+           constructor; cbn [clU clD up down closedA closedB wg gauge main th_pc th_acc th_scr]; auto;
+           first
            [ try rewrite Epc in i_clU0; cbn in i_clU0; destruct (clU c); try discriminate;
              unfold live; revert Hd Hnd; destruct (th_pc th'); intros; try reflexivity; try discriminate; congruence
            | rewrite Hd; discriminate
            | destruct (pc_is_close (th_pc th')); [discriminate | exact i_cluA0]
+           | unfold th'; rewrite thread_step_blocks; destruct (pc_is_close _); [discriminate | exact i_blkU0]
            | rewrite i_wg0, ?Epc, Hd; reflexivity
            | apply tinv_step; exact i_tu0
            | apply thread_step_acc_ok; exact i_au0 ]).
@@ -218,6 +232,7 @@ Proof.
       destruct (stats_close _ _ _ _) as [cl cv].
       constructor; cbn [clU clD up down closedA closedB wg gauge main th_pc th_acc]; auto.
       * rewrite (thread_step_close _ _ _ Epc). exact i_clU0.
+      * rewrite thread_step_blocks. exact i_blkU0.
       * rewrite i_wg0, ?Epc, (thread_step_close _ _ _ Epc). reflexivity.
       * intros Hm. specialize (i_main0 Hm). rewrite i_main0. reflexivity.
       * apply tinv_step; exact i_tu0.
@@ -228,17 +243,20 @@ Proof.
       try (set (th' := thread_step (down c) (closedB c) (closedA c));
            assert (Hnd : th_pc th' <> PDone) by (apply thread_step_pc; rewrite Epc; discriminate);
            assert (Hd : pc_is_done (th_pc th') = false) by (destruct (th_pc th'); try reflexivity; congruence);
-           constructor; cbn [clU clD up down closedA closedB wg gauge main th_pc th_acc]; auto;
+           constructor; cbn [clU clD up down closedA closedB wg gauge main th_pc th_acc th_scr]; auto;
+           first
            [ try rewrite Epc in i_clD0; cbn in i_clD0; destruct (clD c); try discriminate;
              unfold live; revert Hd Hnd; destruct (th_pc th'); intros; try reflexivity; try discriminate; congruence
            | rewrite Hd; discriminate
            | destruct (pc_is_close (th_pc th')); [discriminate | exact i_cldB0]
+           | unfold th'; rewrite thread_step_blocks; destruct (pc_is_close _); [discriminate | exact i_blkD0]
            | rewrite i_wg0, ?Epc, Hd; reflexivity
            | apply tinv_step; exact i_td0
            | apply thread_step_acc_ok; exact i_ad0 ]).
     + destruct (stats_close _ _ _ _) as [cl cv].
       constructor; cbn [clU clD up down closedA closedB wg gauge main th_pc th_acc]; auto.
       * rewrite (thread_step_close _ _ _ Epc). exact i_clD0.
+      * rewrite thread_step_blocks. exact i_blkD0.
       * rewrite i_wg0, ?Epc, (thread_step_close _ _ _ Epc). cbn. lia.
       * intros Hm. specialize (i_main0 Hm). rewrite i_main0. reflexivity.
       * apply tinv_step; exact i_td0.
@@ -247,11 +265,13 @@ Proof.
   - (* TUpCl *)
     destruct (clU c) eqn:Ecl; try (constructor; rewrite ?Ecl; auto; fail).
     destruct (stats_close _ _ _ _) as [cl cv].
-    constructor; cbn [clU clD up down closedA closedB wg gauge main th_pc th_acc]; auto.
+    constructor; cbn [clU clD up down closedA closedB wg gauge main th_pc th_acc th_scr]; auto;
+      destruct (t_csrc_blocks (th_scr (up c))); cbn; auto; discriminate.
   - (* TDownCl *)
     destruct (clD c) eqn:Ecl; try (constructor; rewrite ?Ecl; auto; fail).
     destruct (stats_close _ _ _ _) as [cl cv].
-    constructor; cbn [clU clD up down closedA closedB wg gauge main th_pc th_acc]; auto.
+    constructor; cbn [clU clD up down closedA closedB wg gauge main th_pc th_acc th_scr]; auto;
+      destruct (t_csrc_blocks (th_scr (down c))); cbn; auto; discriminate.
   - (* TMain *)
     destruct (main c) eqn:Em.
     + destruct (wg c) eqn:Ew.
@@ -269,23 +289,37 @@ Proof. induction s as [|t s IH]; intros c I; [exact I|]. cbn. apply IH, inv_step
 (* ------------------------------------------------------------------ *)
 (* always_torn_down *)
 
+Definition closer_over (st : cl_state) (t : thread) : Prop :=
+  st = CDone \/ (st = CBlocked /\ t_csrc_blocks (th_scr t) = true).
+
+Lemma finished_parts c : finished c = true ->
+  pc_is_done (th_pc (up c)) = true /\ pc_is_done (th_pc (down c)) = true /\
+  cl_over (clU c) = true /\ cl_over (clD c) = true /\ main c = MDone.
+Proof.
+  unfold finished. intros F.
+  apply andb_true_iff in F as [F F5]. apply andb_true_iff in F as [F F4].
+  apply andb_true_iff in F as [F F3]. apply andb_true_iff in F as [F1 F2].
+  repeat split; auto. destruct (main c); try discriminate; reflexivity.
+Qed.
+
 Lemma finished_torn_down g0 c : inv g0 c -> finished c = true ->
   closedA c = true /\ closedB c = true /\ wg c = O /\ gauge c = g0 /\
-  clU c = CDone /\ clD c = CDone /\ main c = MDone /\
+  closer_over (clU c) (up c) /\ closer_over (clD c) (down c) /\ main c = MDone /\
   th_pc (up c) = PDone /\ th_pc (down c) = PDone.
 Proof.
-  intros I F. unfold finished in F.
-  apply andb_true_iff in F as [F F3]. apply andb_true_iff in F as [F1 F2].
-  destruct (clU c) eqn:E1; try discriminate. destruct (clD c) eqn:E2; try discriminate.
-  destruct (main c) eqn:E3; try discriminate.
+  intros I F. destruct (finished_parts c F) as (F1 & F2 & F3 & F4 & E3).
   destruct I.
-  assert (HA : closedA c = true) by (apply i_cluA0; rewrite E1; reflexivity).
+  assert (HA : closedA c = true) by (apply i_cluA0; exact F3).
   assert (HB : closedB c = true) by (apply i_mdone0; exact E3).
   assert (HW : wg c = O) by (apply i_main0; rewrite E3; discriminate).
   assert (HG : gauge c = g0) by (rewrite i_gauge0, E3; reflexivity).
   assert (Pu : th_pc (up c) = PDone) by (destruct (th_pc (up c)); try discriminate; reflexivity).
   assert (Pd : th_pc (down c) = PDone) by (destruct (th_pc (down c)); try discriminate; reflexivity).
-  repeat split; assumption || reflexivity.
+  assert (CU : closer_over (clU c) (up c)).
+  { unfold closer_over. destruct (clU c) eqn:E; try discriminate; [left; reflexivity | right; split; auto]. }
+  assert (CD : closer_over (clD c) (down c)).
+  { unfold closer_over. destruct (clD c) eqn:E; try discriminate; [left; reflexivity | right; split; auto]. }
+  repeat split; assumption.
 Qed.
 
 (* ------------------------------------------------------------------ *)
@@ -300,11 +334,11 @@ Proof.
   assert (Lu : live (th_pc (up c)) = false) by (unfold live; rewrite Du, orb_true_r; reflexivity).
   assert (Ld : live (th_pc (down c)) = false) by (unfold live; rewrite Dd, orb_true_r; reflexivity).
   rewrite Lu in i_clU0. rewrite Ld in i_clD0.
-  destruct (clU c) eqn:E1; try discriminate; [exists TUpCl; cbn; now rewrite E1|].
-  destruct (clD c) eqn:E2; try discriminate; [exists TDownCl; cbn; now rewrite E2|].
-  exists TMain. cbn. rewrite i_wg0, Du, Dd. cbn.
-  unfold finished in F. rewrite Du, Dd, E1, E2 in F. cbn in F.
-  destruct (main c); try reflexivity. discriminate.
+  destruct (clU c) eqn:E1; try discriminate; try (exists TUpCl; cbn; now rewrite E1);
+    (destruct (clD c) eqn:E2; try discriminate; try (exists TDownCl; cbn; now rewrite E2));
+    (exists TMain; cbn; rewrite i_wg0, Du, Dd; cbn;
+     unfold finished in F; rewrite Du, Dd, E1, E2 in F; cbn in F;
+     destruct (main c); try reflexivity; discriminate).
 Qed.
 
 Lemma disabled_noop c t : enabled c t = false -> step c t = c.
@@ -363,9 +397,11 @@ Proof.
     pose proof (thread_step_measure (down c) (closedB c) (closedA c)) as M; rewrite Epc in M.
     specialize (M ltac:(discriminate)). lia.
   - destruct (clU c) eqn:Ecl; try discriminate.
-    destruct (stats_close _ _ _ _) as [cl cv]. cbn [up down clU clD main cl_measure]. lia.
+    destruct (stats_close _ _ _ _) as [cl cv]. cbn [up down clU clD main].
+    destruct (t_csrc_blocks _); cbn [cl_measure]; lia.
   - destruct (clD c) eqn:Ecl; try discriminate.
-    destruct (stats_close _ _ _ _) as [cl cv]. cbn [up down clU clD main cl_measure]. lia.
+    destruct (stats_close _ _ _ _) as [cl cv]. cbn [up down clU clD main].
+    destruct (t_csrc_blocks _); cbn [cl_measure]; lia.
   - destruct (main c) eqn:Em; [destruct (wg c) eqn:Ew|..]; try discriminate;
       cbn [up down clU clD main main_measure]; lia.
 Qed.
@@ -450,11 +486,10 @@ Qed.
 
 Lemma finished_disabled c t : finished c = true -> enabled c t = false.
 Proof.
-  unfold finished. intros F.
-  apply andb_true_iff in F as [F F3]. apply andb_true_iff in F as [F1 F2].
-  destruct (clU c) eqn:E1; try discriminate. destruct (clD c) eqn:E2; try discriminate.
-  destruct (main c) eqn:E3; try discriminate.
-  destruct t; cbn; rewrite ?F1, ?F2, ?E1, ?E2, ?E3; reflexivity.
+  intros F. destruct (finished_parts c F) as (F1 & F2 & F3 & F4 & E3).
+  destruct t; cbn; rewrite ?F1, ?F2, ?E3; try reflexivity.
+  - destruct (clU c); try discriminate; reflexivity.
+  - destruct (clD c); try discriminate; reflexivity.
 Qed.
 
 Lemma finished_stable : forall s c, finished c = true -> run c s = c.
@@ -491,11 +526,50 @@ Lemma relay_torn_down g0 su sd s :
   let c := run (init_cfg g0 su sd) s in
   finished c = true ->
   closedA c = true /\ closedB c = true /\ wg c = O /\ gauge c = g0 /\
-  clU c = CDone /\ clD c = CDone /\ main c = MDone.
+  closer_over (clU c) (up c) /\ closer_over (clD c) (down c) /\ main c = MDone /\
+  th_pc (up c) = PDone /\ th_pc (down c) = PDone.
 Proof.
   intros c F.
-  pose proof (finished_torn_down g0 c (inv_run g0 s _ (inv_init g0 su sd)) F) as H.
-  tauto.
+  exact (finished_torn_down g0 c (inv_run g0 s _ (inv_init g0 su sd)) F).
+Qed.
+
+(* the script of a direction never changes its "Close(src) blocks" bit, so [closer_over] speaks
+   about the scripts the run started with *)
+Lemma step_keeps_blocks c t :
+  t_csrc_blocks (th_scr (up (step c t))) = t_csrc_blocks (th_scr (up c)) /\
+  t_csrc_blocks (th_scr (down (step c t))) = t_csrc_blocks (th_scr (down c)).
+Proof.
+  destruct t; case_step c; cbn [up down th_scr]; rewrite ?thread_step_blocks; split; reflexivity.
+Qed.
+
+Lemma run_keeps_blocks : forall s c,
+  t_csrc_blocks (th_scr (up (run c s))) = t_csrc_blocks (th_scr (up c)) /\
+  t_csrc_blocks (th_scr (down (run c s))) = t_csrc_blocks (th_scr (down c)).
+Proof.
+  induction s as [|t s IH]; intros c; [split; reflexivity|].
+  cbn [run fold_left]. fold (run (step c t) s). destruct (IH (step c t)) as [-> ->]. apply step_keeps_blocks.
+Qed.
+
+(* no goroutine is left behind, stated precisely: when nothing is left to run, every thread of the
+   relay has returned, except a source closer whose connection's own Close never returns — and
+   with connections whose Close returns there is none *)
+Lemma relay_no_goroutine_left g0 su sd s :
+  let c := run (init_cfg g0 su sd) s in
+  finished c = true ->
+  th_pc (up c) = PDone /\ th_pc (down c) = PDone /\ main c = MDone /\
+  (clU c = CDone \/ (clU c = CBlocked /\ t_csrc_blocks su = true)) /\
+  (clD c = CDone \/ (clD c = CBlocked /\ t_csrc_blocks sd = true)) /\
+  (t_csrc_blocks su = false -> clU c = CDone) /\ (t_csrc_blocks sd = false -> clD c = CDone).
+Proof.
+  intros c F.
+  destruct (relay_torn_down g0 su sd s F) as (_ & _ & _ & _ & CU & CD & M & Pu & Pd).
+  destruct (run_keeps_blocks s (init_cfg g0 su sd)) as [Bu Bd].
+  change (t_csrc_blocks (th_scr (up (init_cfg g0 su sd)))) with (t_csrc_blocks su) in Bu.
+  change (t_csrc_blocks (th_scr (down (init_cfg g0 su sd)))) with (t_csrc_blocks sd) in Bd.
+  subst c. unfold closer_over in *. rewrite Bu in CU. rewrite Bd in CD.
+  repeat split; auto.
+  - intros Hb. destruct CU as [H | [_ H]]; [exact H | congruence].
+  - intros Hb. destruct CD as [H | [_ H]]; [exact H | congruence].
 Qed.
 
 Lemma relay_delivers g0 su sd s :
